@@ -129,11 +129,15 @@ FUNCTIONS = [
         ensures g_first_settled <= 1
         ensures g_first_resolved ==> g_first_value == (long)g_first_full
         # on would-block the unsent tail stays at the front of the queue with its promise
-        ensures (g_eagain_seen && OLD(this->toWrite.present) && OLD(this->toWrite.q->n) > 0) ==> (this->toWrite.present && this->toWrite.q->n > 0 && we_inv(&this->toWrite.q->front))""",
+        ensures (g_eagain_seen && OLD(this->toWrite.present) && OLD(this->toWrite.q->n) > 0) ==> (this->toWrite.present && this->toWrite.q->n > 0 && we_inv(&this->toWrite.q->front))
+        # a drain only takes entries off the queue, and it gives up with data still queued only on would-block (then with write interest armed)
+        ensures this->toWrite.q->n <= OLD(this->toWrite.q->n)
+        ensures (this->toWrite.present && this->toWrite.q->n > 0) ==> g_eagain_seen""",
      'loops': ["""
         assigns stop, this->toWrite.present, *this->toWrite.q, vs_errno, vs_exc, g_eagain_seen, g_send_after_eagain, g_sent_total, g_send_calls, g_expect_off,
                 g_write_interest, g_lock_held, g_first_settled, g_first_resolved, g_first_value, g_other_settled, $HOISTED
         invariant !g_lock_held && vs_exc == 0 && g_send_after_eagain == 0 && (g_eagain_seen ==> (g_write_interest && stop)) && Q->n < WIRE_MAX
+        invariant Q->n <= LOOP_ENTRY(Q->n) && ((stop && M->present && Q->n > 0) ==> g_eagain_seen)
         invariant (M->present && Q->n > 0 && (!stop || g_eagain_seen)) ==> (Q->front.deferred.valid && BH_INV(&Q->front.buffer))
         invariant (M->present && Q->n > 0 && !stop) ==> g_expect_off == BH_NEXT(&Q->front.buffer)
         invariant g_first_settled <= 1 && (g_first_resolved ==> g_first_value == (long)g_first_full)
